@@ -38,13 +38,47 @@ def cases(tier, rng):
         key = [1, 2, N - 1][j] if j < 3 else rng.randrange(1, N)
         msg = msgs[j % len(msgs)] if j < len(msgs) * 2 else rng.choice(msgs[:15])
         yield {"k": "sv", "net": rng.choice(["mainnet", "testnet"]), "key": key, "msg": msg, "comp": rng.random() < 0.5}
+    # acceptance for all four recovery ids, both header classes (forged-but-valid triples, see _forged_valid)
+    for j in range(32 if tier == "quick" else 800):
+        yield {"k": "forged", "net": rng.choice(["mainnet", "testnet"]), "msg": rng.choice(msgs[:10] + ["f%d" % j]), "comp": bool(j & 4),
+               "recid": j % 4, "seedv": rng.getrandbits(64)}
     # rejection stream (valid ones mixed in)
     for j in range(250 if tier == "quick" else 8000):
         key = rng.randrange(1, N); msg = rng.choice(msgs[:14] + ["m%d" % j])
         mut = rng.choice(["none", "flip_r", "flip_s", "hdr", "hdr35", "hdr26", "hdr_any", "hdr_plus2", "hdr_plus2", "small_r", "random", "other_msg",
-                          "other_addr", "flip_class", "s_neg", "size"])
+                          "other_addr", "flip_class", "s_neg", "size", "s_zero", "s_eq_n"])
         yield {"k": "rej", "net": rng.choice(["mainnet", "testnet"]), "key": key, "msg": msg, "comp": rng.random() < 0.5, "mut": mut,
                "bit": rng.randrange(256), "h": rng.randrange(256), "rnd": rand_hex(rng, 65)}
+
+
+P_FIELD = 0xFFFFFFFFFFFFFFFFFFFFFFFFFFFFFFFFFFFFFFFFFFFFFFFFFFFFFFFEFFFFFC2F
+
+
+def _forged_valid(d):
+    """A triple that libsecp256k1 ACCEPTS and that needs no private key: pick R (abscissa r, or r + n for the two
+    "second key" recovery ids), any s, and take the address of Q = r^-1 (s R - e G).  The only way to exercise
+    acceptance for recovery ids 2 and 3, which genuine signatures reach with probability 2^-128."""
+    import coincurve, hashlib, random
+    from Crypto.Hash import RIPEMD160
+    rr = random.Random(d["seedv"])
+    recid = d["recid"]
+    while True:
+        r = rr.randrange(1, P_FIELD - N) if recid >= 2 else rr.randrange(1, N)
+        x = r + N if recid >= 2 else r
+        try:
+            R = coincurve.PublicKey(bytes([2 + (recid & 1)]) + x.to_bytes(32, "big"))
+            break
+        except Exception:
+            continue
+    sv = rr.randrange(1, N)
+    e = int.from_bytes(_digest(d["msg"]), "big")
+    sR = R.multiply(sv.to_bytes(32, "big"))
+    parts = [sR] if e % N == 0 else [sR, coincurve.PrivateKey(((-e) % N).to_bytes(32, "big")).public_key]
+    Q = coincurve.PublicKey.combine_keys(parts).multiply(pow(r, -1, N).to_bytes(32, "big"))
+    comp = d["comp"]
+    addr = _addr("p2pkh", d["net"], RIPEMD160.new(hashlib.sha256(Q.format(comp)).digest()).digest())
+    sig = bytes([27 + recid + (4 if comp else 0)]) + r.to_bytes(32, "big") + sv.to_bytes(32, "big")
+    return addr, sig, d["msg"], Q.format(False).hex()
 
 
 def _digest(msg):
@@ -70,7 +104,24 @@ def _ref_addr(d, comp=None):
     return _addr("p2pkh", d["net"], RIPEMD160.new(hashlib.sha256(pub).digest()).digest())
 
 
+def _forged_s0(d, s_bytes):
+    """a triple nobody needs a key for: s = 0 (or n) and the address of the point that a recovery WITHOUT range checks
+    would compute, Q = r^-1 (s R - e G) = -(e / r) G.  libsecp256k1 refuses s = 0 and s >= n."""
+    import coincurve, hashlib
+    from Crypto.Hash import RIPEMD160
+    R = coincurve.PrivateKey(d["key"].to_bytes(32, "big")).public_key.format(False)
+    r = int.from_bytes(R[1:33], "big") % N
+    e = int.from_bytes(_digest(d["msg"]), "big")
+    k = (-e * pow(r, -1, N)) % N or 1
+    Q = coincurve.PrivateKey(k.to_bytes(32, "big")).public_key.format(d["comp"])
+    addr = _addr("p2pkh", d["net"], RIPEMD160.new(hashlib.sha256(Q).digest()).digest())
+    hdr = 27 + (R[64] & 1) + (4 if d["comp"] else 0)
+    return addr, bytes([hdr]) + r.to_bytes(32, "big") + s_bytes, d["msg"]
+
+
 def _triple(d):
+    if d["mut"] == "s_zero": return _forged_s0(d, bytes(32))
+    if d["mut"] == "s_eq_n": return _forged_s0(d, N.to_bytes(32, "big"))
     sig = bytearray(_ref_sign(d)); msg = d["msg"]; addr = _ref_addr(d)
     m = d["mut"]
     if m == "flip_r": sig[1 + d["bit"] // 8 % 32] ^= 1 << (d["bit"] % 8)
@@ -96,7 +147,8 @@ def impl(d):
     setup(d["net"])
     if d["k"] == "sv":
         sk = PrivateKey(secret_exponent=d["key"])
-        sig = sk.sign_message(d["msg"], compressed=d["comp"])
+        # compressed=True is the documented default: rely on it for half of the compressed cases
+        sig = sk.sign_message(d["msg"]) if (d["comp"] and d["key"] % 2 == 0) else sk.sign_message(d["msg"], compressed=d["comp"])
         raw = base64.b64decode(sig)
         addr = sk.get_public_key().get_address(compressed=d["comp"]).to_string()
         v = guarded(lambda: "%d" % PublicKey.verify_message(addr, sig, d["msg"]))
@@ -104,6 +156,11 @@ def impl(d):
         rec2 = guarded(lambda: PublicKey.from_message_signature(d["msg"], raw).to_hex(False)) if d["msg"] else "EMPTY"
         det = sk.sign_message(d["msg"], compressed=d["comp"]) == sig
         return raw.hex() + "|" + addr + "|verify=" + v + "|rec=" + rec + "|rec2=%d" % (rec2 == rec) + "|det=%d" % det
+    if d["k"] == "forged":
+        addr, sig, msg, q = _forged_valid(d)
+        v = guarded(lambda: "%d" % PublicKey.verify_message(addr, base64.b64encode(sig).decode(), msg))
+        rec = guarded(lambda: PublicKey(message=msg, signature=sig).to_hex(False)) if msg else "EMPTY"
+        return "verify=" + v + "|rec=" + rec
     addr, sig, msg = _triple(d)
     try:
         return "1" if PublicKey.verify_message(addr, base64.b64encode(sig).decode(), msg) else "0"
@@ -137,6 +194,10 @@ def model_after(d, io):
 
 
 def model(d):
+    if d["k"] == "forged":
+        addr, sig, msg, q = _forged_valid(d)
+        m = Raw("x" + msg.encode("utf-8").hex())
+        return [sx("msg_verify", d["net"], addr.encode(), sig, m), sx("msg_recover", m, sig)]
     if d["k"] == "rej":
         addr, sig, msg = _triple(d)
         return sx("msg_verify", d["net"], addr.encode(), sig, Raw("x" + msg.encode("utf-8").hex()))
@@ -144,6 +205,9 @@ def model(d):
 
 
 def post(d, out):
+    if d["k"] == "forged":
+        v, rec = out.split("|")
+        return "verify=%s|rec=%s" % (v, "EMPTY" if d["msg"] == "" else rec)
     if d["k"] == "sv":
         v, rec = out.split("|")
         rec = "EMPTY" if d["msg"] == "" else rec
@@ -156,6 +220,9 @@ def oracle(d):
     if d["k"] == "sv":
         pub = coincurve.PrivateKey(d["key"].to_bytes(32, "big")).public_key.format(False).hex()
         return "interop=1,hdr_class=1,addr_ok=1|verify=1|rec=%s|rec2=1|det=1" % (pub if d["msg"] else "EMPTY")
+    if d["k"] == "forged":
+        addr, sig, msg, q = _forged_valid(d)
+        return "verify=1|rec=%s" % (q if msg else "EMPTY")
     # acceptance = a libsecp256k1-based recovery accepts the triple
     addr, sig, msg = _triple(d)
     if len(sig) != 65: return "0"
